@@ -15,3 +15,5 @@ mod c14;
 mod c03;
 #[cfg(kani)]
 mod c06;
+#[cfg(kani)]
+mod c19;
